@@ -171,7 +171,7 @@ func vtextTo(b *tbuf, v reflect.Value, canon bool) {
 		return
 	}
 	if _, ok := customOf(v); ok {
-		enc, err := v.Interface().(interface{ Encode() ([]byte, error) }).Encode()
+		enc, err := customEncode(v)
 		if err != nil {
 			b.WriteString("(custom-error)")
 		} else {
